@@ -14,7 +14,7 @@ claim("C16",
       "Proof that a tier rotates cyclically for ever and that its index stays in range, also when other announces move the index while a call waits for its tracker (the index is havocked across the inner Announce, in range by rely/guarantee): a stale failure does not move the tier, a success leaves it where it is; whole-program "
       "whitelist of writers of the tier index; that an HTTP announce reads at most the configured response size; that "
       "decoding a compact peer list never indexes out of range and yields one address per six bytes or an error; that a dictionary-model peer list yields only addresses that have "
-      "an IP; that every announce attempt is accounted for: when announce() returns, its outcome was offered to the "
+      "an IP; that an announce cancelled by the caller itself does not move the tier; that the tracker id from a reply is written escaped into the next request; that a reply is decoded only after the bencode guard accepted it; that every announce attempt is accounted for: when announce() returns, its outcome was offered to the "
       "announcer loop in a hand-over select or the announcer's own context is done - an abort caused by another torrent "
       "that shares the tracker connection is reported as an error and so retried. "
       "Partial: bencoded reply parsing, UDP transaction matching and the transport's own goroutines are outside.",
@@ -26,12 +26,12 @@ claim("C15",
       "of a run says started, that it says completed at most once (ghost counter; a nil channel is never selected), "
       "never says stopped from its loop, and arms its timer from a tracker reply or a need-more-peers signal only with "
       "a positive interval that is the tracker's or the minimum announce interval (zero/negative replies fall back to "
-      "the minimum). Bounded stand-in (labelled, not counted): percent-escaping of info-hash and peer id for all byte "
+      "the minimum); that the minimum announce interval never decreases during a run (a reply's min interval can only raise it); that the wait taken from a failure reply's retry-in is zero or between a minute and a day (RetryIn, and whitelisted writers of Error.RetryIn store exactly its result); that a tier tells 'started' to a member that has not accepted an announce yet and 'stopped' exactly to members that have. Bounded stand-in (labelled, not counted): percent-escaping of info-hash and peer id for all byte "
       "values. Partial: the HTTP query as a whole, the stop announcer, and real timers are outside.",
       "DESIGN.md §4 C15")
 
 claim("C06",
-      "Proof that every info dictionary accepted by NewInfo is well-formed for all decodable inputs: positive piece length "
+      "Proof that every info dictionary accepted by NewInfo is well-formed for all decodable inputs: positive piece length of at most 256 MiB "
       "and piece count, non-negative file lengths, Info.Length equal to the exact (non-wrapping) sum of the file lengths "
       "(recursive spec function + lemma by induction), piece count consistent with the total. Partial: piece construction "
       "termination and the size limits on the input paths are added as their contracts discharge (see evidence).",
@@ -100,13 +100,13 @@ claim("C17",
       "DESIGN.md §4 C17")
 
 claim("C18",
-      "Proof of the admission guards at every site that creates a handshaker (not connected, not banned, not blocked when the blocklist applies) and of the address filters in front of the candidate queue. Also proved: every entry of the address queue's time-ordered slice records its own position after Push, Pop, the nil-compaction (in-place, loop invariant) and the trimming step, with slices.SortFunc modelled as an injective rearrangement, so Pop clears the slot of the address it removed. The queue orders entries of equal BEP 40 priority by IP and port, so distinct addresses never displace each other; every address inserted passed all admission filters (port, unspecified, own loopback port, own external IP, interface addresses, blocklist; ghost-tracked results). Partial: the segment tree is recursive pointer code (not under contract); that the external btree holds exactly the slice's entries is assumed, not proved. The blocklist looks up exactly the big-endian value of the four address bytes (non-IPv4 addresses are not looked up), and private ranges are never taken for the host's public address.",
+      "Proof of the admission guards at every site that creates a handshaker (not connected, not banned, not blocked when the blocklist applies - consulted again at dial time, so a reload between queueing and dialing counts; tracker connections are dialed per announce and a cached UDP tracker address is re-checked, so they do not outlive a reload) and of the address filters in front of the candidate queue. Also proved: every entry of the address queue's time-ordered slice records its own position after Push, Pop, the nil-compaction (in-place, loop invariant) and the trimming step, with slices.SortFunc modelled as an injective rearrangement, so Pop clears the slot of the address it removed. The queue orders entries of equal BEP 40 priority by IP and port, so distinct addresses never displace each other; every address inserted passed all admission filters (port, unspecified, own loopback port, own external IP, interface addresses, blocklist; ghost-tracked results). Partial: the segment tree is recursive pointer code (not under contract); that the external btree holds exactly the slice's entries is assumed, not proved. The blocklist looks up exactly the big-endian value of the four address bytes (non-IPv4 addresses are not looked up), and private ranges are never taken for the host's public address.",
       "DESIGN.md §4 C18")
 
 claim("C07",
       "Proof that every file or directory the archive extractor creates was first checked to lie under the destination "
       "directory plus separator (ghost-tracked prefix test on exactly that name), and that nothing else in rain calls the "
-      "extractor's writer; the storage opens exactly Join(root, Clean(name)) (ghost-tracked). Partial: semantics of path/filepath and strings are assumed; metainfo path cleaning is covered "
+      "extractor's writer; the storage opens exactly Join(root, Clean(name)) (ghost-tracked); removing a torrent's data deletes Join(DataDir, first component of the cleaned file path), never a path built from the raw name and never "", "." or ".." (ghost-tracked). Partial: semantics of path/filepath and strings are assumed; metainfo path cleaning is covered "
       "only as far as listed in the evidence.",
       "DESIGN.md §4 C07")
 
